@@ -88,3 +88,53 @@ def op_stack_effect(c):
     except Exception as e:
         return errobs(e)
     return [0] + opt(r)
+
+
+MARK = {"consts": 30, "names": 20, "vars": 4, "cells": ["v0", "c1"], "frees": ["f0"]}
+
+
+def _enc(name):
+    return ord(name[0]) * 1000 + int(name[1:])
+
+
+def _portable_with_markers(vt, code):
+    """a portable code object of version vt whose tables hold marker values (const i -> 1000+i, name 'n<i>', ...)"""
+    from xdis.codetype import to_portable
+    consts = tuple(1000 + i for i in range(MARK["consts"]))
+    names = tuple("n%d" % i for i in range(MARK["names"]))
+    varnames = tuple("v%d" % i for i in range(MARK["vars"]))
+    return to_portable(co_argcount=0, co_posonlyargcount=0, co_kwonlyargcount=0, co_nlocals=len(varnames), co_stacksize=1, co_flags=0,
+                       co_code=bytes(code), co_consts=consts, co_names=names, co_varnames=varnames, co_filename="f.py", co_name="f", co_qualname="f",
+                       co_firstlineno=1, co_lnotab=b"", co_freevars=tuple(MARK["frees"]), co_cellvars=tuple(MARK["cells"]), co_exceptiontable=b"",
+                       version_triple=tuple(vt))
+
+
+def op_resolve(c):
+    """c = {table, code}: Bytecode over a marker-table code object; per instruction [offset, kind, value...]"""
+    from xdis.bytecode import Bytecode
+    opc = table(c["table"])
+    try:
+        co = _portable_with_markers(opc.version_tuple, c["code"])
+        ins = list(Bytecode(co, opc))
+    except Exception as e:
+        return errobs(e)
+    out = [0, 0]
+    n = 0
+    for x in ins:
+        if x.optype not in ("const", "name", "local", "free", "compare") or x.arg is None:
+            continue
+        v = x.argval
+        if x.optype == "compare":
+            o = [5, list(opc.cmp_op).index(v)] if v in opc.cmp_op else [8]
+        elif isinstance(v, tuple):
+            o = [6] + sum(([2, _enc(a)] if isinstance(a, str) else [9, int(a)] for a in v), [])
+        elif isinstance(v, str):
+            o = [2, _enc(v)]
+        elif isinstance(v, int):
+            o = [1, v] if v >= 1000 else [9, v]
+        else:
+            o = [7]
+        out += [x.offset] + o
+        n += 1
+    out[1] = n
+    return out
